@@ -45,6 +45,9 @@ def check(repo: Repo, rep, tier):
     range_prov(repo, rep)
     char_units(repo, rep)
     stale_bindings(repo, rep, {n for (rel, n), w in __import__("sa.rules.common", fromlist=["rebound_globals"]).rebound_globals(repo).items() if any(x.startswith("_compare_context.py::compare_context:") for x in w)}, "e.g. a copied compare-only flag stays False while a list is aligned, so nested snapshots are committed to the elements they are merely tried against", strict_rebinders=("_compare_context.py::compare_context",))
+    from .C03 import element_parens
+
+    element_parens(repo, rep)
 
 
 def eq_edges(cfg):
